@@ -588,7 +588,16 @@ func serve(route string, r reqSpec) (out string, reply *dns.Msg, via string) {
 func classify(m *dns.Msg) string {
 	switch m.Rcode {
 	case dns.RcodeServerFailure:
-		return "fail"
+		// a cached RFC 9520 failure announces itself with EDE 13 (every harness client speaks EDNS);
+		// any other SERVFAIL is made on the spot (alias pointing back at the question)
+		if opt := m.IsEdns0(); opt != nil {
+			for _, o := range opt.Option {
+				if e, ok := o.(*dns.EDNS0_EDE); ok && e.InfoCode == dns.ExtendedErrorCodeCachedError {
+					return "fail"
+				}
+			}
+		}
+		return "loop"
 	case dns.RcodeNameError:
 		for _, rr := range m.Ns {
 			if soa, ok := rr.(*dns.SOA); ok {
@@ -619,7 +628,7 @@ func judge(entry string, out string, r reqSpec, hasECS bool) string {
 		clientScope = r.client.Masked()
 	}
 	switch {
-	case out == "miss" || out == "dropped" || out == "ineligible":
+	case out == "miss" || out == "dropped" || out == "ineligible" || out == "loop":
 		return "ok"
 	case strings.HasPrefix(out, "hit"):
 		idsS := strings.TrimSpace(strings.TrimPrefix(out, "hit"))
